@@ -251,7 +251,7 @@ fn sp_getmut_index() {
 }
 #[kani::proof]
 #[kani::unwind(4)]
-fn sp_extend_clear() {
+fn sp_extend() {
     let mut t = new_tree_generic();
     let mut m = Model::new();
     ins(&mut t, &mut m);
@@ -260,31 +260,65 @@ fn sp_extend_clear() {
     m.insert(k1, v1);
     m.insert(k2, v2);
     q_shape(&t, &m);
-    let q = key();
-    assert!(t.get(&q).copied() == m.get(q), "extend inserts every pair (later pairs replace earlier ones)");
-    t.clear();
-    assert!(t.len() == 0 && t.is_empty() && t.min().is_none() && t.get(&q).is_none(), "clear empties the map");
-    let r = t.insert(q, 1);
-    assert!(r.is_none() && t.len() == 1, "the map is usable after clear");
     kani::cover!(k1 == k2, "extend with a duplicate key");
+    kani::cover!(m.len() == 3, "three distinct keys");
     std::mem::forget(t);
+}
+/// clear() of every 3-node shape, then reuse (concrete shapes: the teardown loop needs 2n iterations)
+#[kani::proof]
+#[kani::unwind(8)]
+fn sp_clear() {
+    let mut k = 0u8;
+    while k < 5 {
+        let mut t = new_tree_generic();
+        install(&mut t, shape3(k), 3);
+        t.clear();
+        assert!(t.len() == 0 && t.is_empty() && t.min().is_none() && t.max().is_none() && t.get(&1).is_none(), "clear empties the map");
+        let r = t.insert(1, 1);
+        assert!(r.is_none() && t.len() == 1 && t.get(&1) == Some(&1), "the map is usable after clear");
+        std::mem::forget(t);
+        k += 1;
+    }
+    kani::cover!(true, "all shapes cleared");
 }
 #[kani::proof]
 #[kani::unwind(3)]
-fn sp_set_wrappers() {
+fn sp_set_insert_lookup() {
     let mut s = SplaySet::new(|a: &u8, b: &u8| a.cmp(b));
     let mut m = Model::new();
     let (k1, k2) = (key(), key());
     assert!(s.insert(k1) == m.insert(k1, 0).is_none(), "set insert reports whether the key was new");
     assert!(s.insert(k2) == m.insert(k2, 0).is_none(), "set insert reports whether the key was new");
     let q = key();
-    assert!(s.contains(&q) == m.get(q).is_some() && s.find(&q).copied() == m.get(q).map(|_| q), "set contains/find");
-    assert!(s.next(&q).copied() == m.next(q).map(|p| p.0) && s.prev(&q).copied() == m.prev(q).map(|p| p.0), "set next/prev");
+    if kani::any() {
+        assert!(s.contains(&q) == m.get(q).is_some(), "set contains");
+    } else {
+        assert!(s.find(&q).copied() == m.get(q).map(|_| q), "set find");
+    }
     assert!(s.min().copied() == m.min() && s.max().copied() == m.max() && s.len() == m.len() && s.is_empty() == (m.len() == 0), "set min/max/len");
-    let r: u8 = key();
-    assert!(s.remove(&r) == m.remove(r).is_some(), "set remove reports whether the key was present");
-    assert!(s.len() == m.len() && s.contains(&r) == false, "removed key is gone");
-    kani::cover!(k1 != k2 && r == k1, "remove one of two");
+    kani::cover!(k1 != k2 && q == k1, "hit");
+    std::mem::forget(s);
+}
+#[kani::proof]
+#[kani::unwind(3)]
+fn sp_set_neighbours_remove() {
+    let mut s = SplaySet::new(|a: &u8, b: &u8| a.cmp(b));
+    let mut m = Model::new();
+    let (k1, k2) = (key(), key());
+    s.insert(k1);
+    s.insert(k2);
+    m.insert(k1, 0);
+    m.insert(k2, 0);
+    let q = key();
+    match kani::any::<u8>() % 3 {
+        0 => assert!(s.next(&q).copied() == m.next(q).map(|p| p.0), "set next"),
+        1 => assert!(s.prev(&q).copied() == m.prev(q).map(|p| p.0), "set prev"),
+        _ => {
+            assert!(s.remove(&q) == m.remove(q).is_some(), "set remove reports whether the key was present");
+            assert!(s.len() == m.len(), "len after remove");
+        }
+    }
+    kani::cover!(k1 != k2 && q == k1, "present key");
     std::mem::forget(s);
 }
 
